@@ -387,46 +387,7 @@ func engineConvert(x *X) {
 		_ = w.close()
 		w.settle()
 	}()
-	// 3. every crash point of the first conversion, recovered by a fresh server
-	if clean() {
-		for _, s := range snaps {
-			rw := newWorld(x, p.Knobs, s.dir, "recovered")
-			for d := range w.m.usedDigests {
-				rw.m.usedDigests[d] = true
-			}
-			for t := range w.m.usedTags {
-				rw.m.usedTags[t] = true
-			}
-			rw.open()
-			touch(rw)
-			rw.settle()
-			where := fmt.Sprintf("conversion interrupted before fs op #%d (%s %s)", s.k, s.op, s.path)
-			sig := s.op + " of " + pathKind(s.path)
-			if s.phase == 1 {
-				where = fmt.Sprintf("conversion interrupted after a torn prefix of fs op #%d (%s %s)", s.k, s.op, s.path)
-				sig = "torn " + sig
-			}
-			for _, repo := range p.Repos {
-				o := rw.observe(repo)
-				if d := obsDiff(ref[repo], o, truth[repo].wrongMT); len(d) > 0 {
-					kind, _, _ := strings.Cut(d[0], " ")
-					x.viol([]string{"C17"}, "convert.interrupted-differs", kind+" after "+sig, fmt.Sprintf("%s, then repeated by a fresh server: %s answers differ from the uninterrupted conversion: %s", where, repo, strings.Join(d, "; ")))
-					break
-				}
-				rw.judgeMarked(repo, "after an interrupted conversion was repeated")
-			}
-			func() {
-				defer func() { _ = recover() }()
-				_ = rw.close()
-				rw.settle()
-			}()
-			x.out.CrashPoints++
-			if !clean() {
-				break
-			}
-		}
-	}
-	// C14 on the same trees: the legacy layout and every interrupted state of its conversion, opened read-only (directory
+	// C14 on the same trees (before the recovery below completes the conversion in them): the legacy layout and every interrupted state of its conversion, opened read-only (directory
 	// store, or memory store over the directory), is served without a single mutating filesystem operation
 	if ro, _ := p.Extra["ro"].(bool); ro && clean() {
 		rk := p.Knobs
@@ -473,6 +434,45 @@ func engineConvert(x *X) {
 				break
 			}
 			x.out.probe("ro-on-conversion-state")
+		}
+	}
+	// 3. every crash point of the first conversion, recovered by a fresh server
+	if clean() {
+		for _, s := range snaps {
+			rw := newWorld(x, p.Knobs, s.dir, "recovered")
+			for d := range w.m.usedDigests {
+				rw.m.usedDigests[d] = true
+			}
+			for t := range w.m.usedTags {
+				rw.m.usedTags[t] = true
+			}
+			rw.open()
+			touch(rw)
+			rw.settle()
+			where := fmt.Sprintf("conversion interrupted before fs op #%d (%s %s)", s.k, s.op, s.path)
+			sig := s.op + " of " + pathKind(s.path)
+			if s.phase == 1 {
+				where = fmt.Sprintf("conversion interrupted after a torn prefix of fs op #%d (%s %s)", s.k, s.op, s.path)
+				sig = "torn " + sig
+			}
+			for _, repo := range p.Repos {
+				o := rw.observe(repo)
+				if d := obsDiff(ref[repo], o, truth[repo].wrongMT); len(d) > 0 {
+					kind, _, _ := strings.Cut(d[0], " ")
+					x.viol([]string{"C17"}, "convert.interrupted-differs", kind+" after "+sig, fmt.Sprintf("%s, then repeated by a fresh server: %s answers differ from the uninterrupted conversion: %s", where, repo, strings.Join(d, "; ")))
+					break
+				}
+				rw.judgeMarked(repo, "after an interrupted conversion was repeated")
+			}
+			func() {
+				defer func() { _ = recover() }()
+				_ = rw.close()
+				rw.settle()
+			}()
+			x.out.CrashPoints++
+			if !clean() {
+				break
+			}
 		}
 	}
 	nFB, nArt := 0, 0
